@@ -202,12 +202,16 @@ LEVELS = {"C03": "exploration", "C04": "fault_enumeration", "C10": "fault_enumer
 
 
 def write_evidence(prop, tier, seed, level, coverage, wall, violations, assumptions):
-    os.makedirs(EVID, exist_ok=True)
+    evid = EVID
+    if os.environ.get("VERIF_NO_MODEL") or os.environ.get("VERIF_NO_MBT"):
+        # development runs that skip parts of a check never overwrite the real evidence
+        evid = os.path.join(ROOT, "work", "evidence-partial")
+    os.makedirs(evid, exist_ok=True)
     level = LEVELS.get(prop, level)
     ev = {"property_id": prop, "tier": tier, "seed": int(seed), "level": level,
           "coverage": coverage, "assumptions": assumptions, "wall_s": round(wall, 2),
           "violations": int(violations)}
-    with open(os.path.join(EVID, prop + ".json"), "w") as f:
+    with open(os.path.join(evid, prop + ".json"), "w") as f:
         json.dump(ev, f, indent=1, sort_keys=True)
         f.write("\n")
 
